@@ -121,3 +121,57 @@ void vf_harness(void) {
     trusted=['Array resize(+4)/resize(-4) leaves capacity >= length+4 (C01 resize contract); swapBytes<unsigned> = byte reversal (C16)'],
 )
 UNITS += [mask_loop]
+
+# one iteration of the receive loop: a frame's payload is appended to the message exactly once (fragmented messages)
+RECV_BODY = lambda: Cut('rb', W, r'^\twhile \(!haveMsg\)\s*$',
+    rules=[(r'DEBUG_LOG\([^;]*\);', '', None),
+           (r'ByteArray buffer;', 'int vf_buflen = 0; /* ByteArray buffer; : empty */', None),
+           (r'_socket >> b0 >> mlen;', 'b0 = R_U8(); mlen = R_U8();', 1),
+           (r'_socket\.read<unsigned short>\(\)', 'R_U16()', 1), (r'_socket\.read<Long>\(\)', 'R_I64()', 1), (r'\bLong len64\b', 'long long len64', None),
+           (r'_socket >> mask;', 'mask = R_U32();', 1),
+           (r'(?<![\w.>])closed\(\)', 'nondet_bool()', None), (r'return msg\.fix\(\);', '{ g_returned = 1; return; }', None),
+           (r'\b_closed\b', 'self_closed', None), (r'_socket\.close\(\);', ';', None),
+           (r'buffer\.resize\(buffer\.length\(\) \+ len\);', '{ __CPROVER_assert(vf_buflen + len >= 0, "Array::resize: new length is non-negative"); vf_buflen = vf_buflen + len; }', 1),
+           (r'_socket\.read\(buffer\.data\(\) \+ buffer\.length\(\) - len, len\);', '{ __CPROVER_assert(len <= vf_buflen, "read into the buffer"); g_read += len; }', 1),
+           (r'swapBytes\(mask\);\s*buffer\.resize\(buffer\.length\(\) \+ 4\);\s*buffer\.resize\(buffer\.length\(\) - 4\);\s*int n = buffer\.length\(\) / 4 \+ 1;\s*for \(int i = 0; i < n; i\+\+\)\s*\{\s*\(\(unsigned\*\)buffer\.data\(\)\)\[i\] \^= mask;\s*\}',
+            'g_unmasked += vf_buflen; /* unmasking loop: unit WebSocket_mask_loop */', 1),
+           (r'msg\.append\(buffer\);', 'g_appended += vf_buflen;', 1),
+           (r'_code = \(buffer\[0\] << 8\) \| buffer\[1\];\s*buffer\.remove\(0, 2\);\s*msg = buffer;', '{ vf_buflen -= 2; g_msglen = vf_buflen; }', 1),
+           (r'buffer\.length\(\) >= 2', 'vf_buflen >= 2', 1),
+           (r'(?<![\w.>])send\(buffer\.data\(\), buffer\.length\(\), FRAME_PONG\);', 'g_pong = vf_buflen;', 1), (r'buffer\.clear\(\);', 'vf_buflen = 0;', 1)])
+
+recv_iter = Unit(
+    'WebSocket_receive_frame', 'C11',
+    cuts=[RECV_BODY()],
+    text=PRE + r'''
+bool nondet_bool(void); byte nondet_u8(void); unsigned short nondet_u16(void); unsigned nondet_u32(void); long long nondet_i64(void); int nondet_int(void);
+byte g_hdr[2]; int g_nread; long long g_ext;
+static byte R_U8(void) { byte b = nondet_u8(); if (g_nread < 2) g_hdr[g_nread] = b; g_nread++; return b; }
+static unsigned short R_U16(void) { g_ext = nondet_u16(); return (unsigned short)g_ext; }
+static unsigned R_U32(void) { return nondet_u32(); }
+static Long R_I64(void) { g_ext = nondet_i64(); return g_ext; }
+int g_read, g_unmasked, g_appended, g_msglen, g_pong, g_returned; bool self_closed;
+int vf_buflen;     /* if the per-frame buffer were not created inside the loop, its content from the previous frame would still be there: any length */
+/* RFC 6455 5.2 payload length of the frame just read */
+#define FRAME_LEN ((g_hdr[1] & 0x7f) < 126 ? (long long)(g_hdr[1] & 0x7f) : g_ext)
+#define OPC (g_hdr[0] & 0x0f)
+void WebSocket_receive_frame(void)
+__CPROVER_requires(vf_buflen >= 0 && vf_buflen <= 1000000 && g_nread == 0 && g_read == 0 && g_unmasked == 0 && g_appended == 0 && g_returned == 0 && g_ext == 0)
+/* a data frame (continuation/text/binary) contributes exactly its own payload, once: read, unmasked iff masked, appended */
+__CPROVER_ensures((!g_returned && g_nread == 2 && OPC <= 2) ==> (g_appended == FRAME_LEN && g_read == FRAME_LEN))
+__CPROVER_ensures((!g_returned && g_nread == 2 && (g_hdr[1] & 0x80)) ==> g_unmasked == FRAME_LEN)
+__CPROVER_ensures((!g_returned && g_nread == 2 && OPC > 2) ==> g_appended == 0)
+__CPROVER_assigns(g_hdr, g_nread, g_ext, g_read, g_unmasked, g_appended, g_msglen, g_pong, g_returned, self_closed)
+{
+  bool haveMsg = false; int _code; byte b0, mlen;
+  @@rb@@
+}
+void vf_harness(void) { WebSocket_receive_frame(); VF_CANARY(); }
+''',
+    entry='WebSocket_receive_frame',
+    desc='one iteration of the WebSocket::receive loop for ANY frame bytes: the payload buffer starts empty for every frame, so a (fragment) frame adds exactly its payload to the message once; '
+         'lengths never negative; control frames add nothing',
+    functions=['WebSocket::receive (frame loop body)'],
+    trusted=['socket reads return arbitrary values; Array length arithmetic modelled by a ghost length (C01 contracts)'],
+)
+UNITS += [recv_iter]
